@@ -115,6 +115,16 @@ def reset_on_frame(F, R):
             ok = bool(blocks) and all(u.must_pass(blocks, r_, start=tgt) for r_ in rets)
             R.ob('C20.reset-on-frame', 'update_timer|read-timer start|%s (unconditional)' % what, ok,
                  'when the frame read timer is started this step can be skipped: budget consumed by an earlier slow frame leaks into the next one and a peer that is fast enough is timed out', u.loc(bi))
+    # pausing reads stops the io timer: the timeout flags must be cleared with it, otherwise the stale flag
+    # prevents update_timer from arming a timer again and an idle peer is never timed out
+    ps_ = F.one(r'^io::DispatcherInner::<P, C, U, E>::poll_service$')
+    stops = [bi for bi, t in ps_.calls_to(r'IoRef::stop_timer$|::stop_timer$')]
+    R.ob('C20.reset-on-frame', 'poll_service|stop_timer sites', len(stops) == 1, 'found %d' % len(stops))
+    for sb_ in stops:
+        rms = [bi for bi, t, names in flag_calls(ps_, 'remove') if any('KA_TIMEOUT' in n for n in names) and any('READ_TIMEOUT' in n for n in names)]
+        ok = any(r_ in ps_.dom.get(sb_, ()) for r_ in rms) or (bool(rms) and all(ps_.must_pass(rms, x, start=ps_.blocks[sb_]['term'].get('target', sb_)) for x in ps_.returns() if x in ps_.reachable(sb_)))
+        R.ob('C20.reset-on-frame', 'poll_service|stop_timer=>KA_TIMEOUT|READ_TIMEOUT cleared', ok,
+             'the io timer is stopped while a timeout flag stays set: no timer is armed again until the peer sends a complete frame, so an idle peer is never ended by keep-alive', ps_.loc(sb_))
     h = F.one(r'^io::DispatcherInner::<P, C, U, E>::handle_timeout$')
     conts = {}
     for bi, t, names in flag_calls(h, 'contains'):
@@ -234,7 +244,85 @@ def client_ping(F, R):
              'the keep-alive loop can end although the connection is still open (e.g. when ping() is refused with ExpectPayload during a streamed publish): no PINGREQ is ever sent again')
 
 
+def idle_timeout_expr(F, R):
+    """v3 Handshake::ack: the idle timeout derived from the client's keep-alive is extracted as an
+    expression and evaluated for keep-alive values up to the protocol maximum: it is never shorter than the
+    keep-alive itself (a live peer that pings once per period is not timed out), it is 0 only for 0, and it is
+    at least min(1.5 x keep-alive, 65535)."""
+    from symex import SymEx, term_str_v
+    b = F.one(r'^v3::handshake::Handshake::ack$')
+    ps = [p for p in SymEx(b, F).run() if p.end[0] == 'return' and p.ret and p.ret[0] == 'agg']
+    expr = None
+    for p in ps:
+        for name, v in p.ret[3].items():
+            if name in ('keepalive', 'idle_timeout', 'keep_alive'):
+                expr = v
+    if expr is None:
+        raise AnchorLost('Handshake::ack: keepalive field of the returned HandshakeAck')
+
+    def ev(t, ka):
+        k = t[0]
+        if k == 'const':
+            return t[1]
+        if k in ('ref', 'deref'):
+            return ev(t[1], ka)
+        if k == 'cast':
+            v = ev(t[1], ka)
+            bits = {'u8': 8, 'u16': 16, 'u32': 32, 'u64': 64, 'usize': 64}.get(t[2])
+            return None if v is None else (v & ((1 << bits) - 1) if bits else v)
+        if k == 'field':
+            # connect.keep_alive
+            return ka if t[2] == 'keep_alive' else None
+        if k == 'agg' and len(t[3]) == 1:
+            return ev(list(t[3].values())[0], ka)
+        if k == 'tuple':
+            return ev(t[1][0], ka)
+        if k == 'bin':
+            a, c = ev(t[2], ka), ev(t[3], ka)
+            if a is None or c is None:
+                return None
+            op = t[1].replace('WithOverflow', '')
+            if op == 'Div' and c == 0:
+                return None
+            return {'Shr': a >> c, 'Shl': a << c, 'Add': a + c, 'Sub': a - c, 'Mul': a * c, 'Div': a // c if c else None}.get(op)
+        if k == 'call':
+            base = t[1].split('::')[-1]
+            a = [ev(x, ka) for x in t[2]]
+            if any(v is None for v in a):
+                return None
+            ty = 'u32' if '<impl u32>' in t[1] else 'u16'
+            mx = (1 << (32 if ty == 'u32' else 16)) - 1
+            if base == 'saturating_add':
+                return min(a[0] + a[1], mx)
+            if base == 'saturating_mul':
+                return min(a[0] * a[1], mx)
+            if base == 'saturating_sub':
+                return max(a[0] - a[1], 0)
+            if base in ('from', 'into', 'new'):
+                return a[0]
+            if base == 'min':
+                return min(a)
+            if base == 'max':
+                return max(a)
+            return None
+        return None
+    vals = sorted(set([0, 1, 2, 3, 10, 59, 60, 61, 300, 21845, 21846, 32767, 32768, 43690, 43691, 43692, 65534, 65535]) | (set(range(0, 65536)) if R.tier == 'thorough' else set(range(0, 400))))
+    bad = None
+    for ka in vals:
+        v = ev(expr, ka)
+        if v is None:
+            bad = 'cannot evaluate %s' % term_str_v(expr)[:120]
+            break
+        want = min(ka + ka // 2, 65535)
+        if v < ka or (ka != 0 and v == 0) or v < want:
+            bad = 'keep-alive %d s gives an idle timeout of %d s (expected at least %d)' % (ka, v, want)
+            break
+    R.counts['C20.guards:keep-alive values evaluated'] = len(vals)
+    R.ob('C20.guards', 'v3::Handshake::ack|idle-timeout>=1.5x-keep-alive', bad is None, bad or '', b.loc(0))
+
+
 def run(F, R):
+    idle_timeout_expr(F, R)
     flag_consistency(F, R)
     reset_on_frame(F, R)
     guards(F, R)
